@@ -1,48 +1,87 @@
 (* C15 - protocol part of "no memory error, failed assertion or leak on valid use": the ownership /
    queued-action protocol of Avoid::Router (model: Avoid/LifecycleModel.v, tied to the code by the
    correspondence harness of checks/c15.py).  Only statements closed by `exact`; the proofs live in
-   Avoid/Lifecycle.v and hold for ALL op lists (invariant over `run`), both transaction modes `t`.
-   `run fk fl t ops`: fk / fl = true is the current (repaired) code, false the code before the F-k / F-l
-   repairs.  Illegal ops (documented preconditions violated) are no-ops in the model, so "for all op
+   Avoid/Lifecycle.v (core model: shapes, junctions, connectors, the action queue) and Avoid/LifecycleCP.v
+   (checkpoint VertInfs owned by connectors, op XSetCP = ConnRef::setRoutingCheckpoints) and hold for ALL
+   op lists (invariant over the run), both transaction modes `t`, both routing modes `p` (polyline).
+   `xrun fk fl fc t p ops`: fk / fl / fc = true is the current code; false = the code before the F-k / F-l
+   repairs, resp. the variant of setRoutingCheckpoints that leaves the freed vertices in the list.
+   `run fk fl t ops` is the core model alone; `core (xrun .. ops) = run .. (core_ops ops)`.
+   Illegal ops (documented preconditions violated) are no-ops in the model, so "for all op
    lists" means "for all legal histories, interleaved with arbitrary rejected calls". *)
 From Coq Require Import List. Import ListNotations.
-From Adapt Require Import Avoid.LifecycleModel Avoid.Lifecycle.
+From Adapt Require Import Avoid.LifecycleModel Avoid.Lifecycle Avoid.LifecycleCP.
 
-(* no queued pointer (action object, queued connector-end copy, attached follower) is dereferenced after
-   its object was freed, and nothing is freed twice (free_obj of a non-heap object also logs into `bad`) *)
-Theorem C15_no_use_after_free : forall t ops, bad (run true true t ops) = [].
-Proof. exact no_use_after_free. Qed.
+(* no queued pointer (action object, queued connector-end copy, attached follower) and no entry of a
+   connector's checkpoint-vertex list is dereferenced after its object was freed, and nothing is freed
+   twice (free_obj / vfree of a non-allocated object also log into `bad` / `vbad`) *)
+Theorem C15_no_use_after_free : forall t p ops,
+  bad (core (xrun true true true t p ops)) = [] /\ vbad (xrun true true true t p ops) = [].
+Proof. exact x_no_use_after_free. Qed.
 Print Assumptions C15_no_use_after_free.
 
-Theorem C15_queue_objects_live : forall t ops a,
-  In a (queue (run true true t ops)) -> In (act_obj a) (heap (run true true t ops)).
-Proof. exact queue_objects_live. Qed.
+Theorem C15_queue_objects_live : forall t p ops a,
+  In a (queue (core (xrun true true true t p ops))) -> In (act_obj a) (heap (core (xrun true true true t p ops))).
+Proof. exact x_queue_objects_live. Qed.
 Print Assumptions C15_queue_objects_live.
 
 (* the ConnEnd copies stored inside queued connector updates - what removeObjectFromQueuedActions forgot *)
-Theorem C15_queue_ends_live : forall t ops a o,
-  In a (queue (run true true t ops)) -> In o (act_end_ids a) -> In o (heap (run true true t ops)).
-Proof. exact queue_ends_live. Qed.
+Theorem C15_queue_ends_live : forall t p ops a o,
+  In a (queue (core (xrun true true true t p ops))) -> In o (act_end_ids a) ->
+  In o (heap (core (xrun true true true t p ops))).
+Proof. exact x_queue_ends_live. Qed.
 Print Assumptions C15_queue_ends_live.
 
-Theorem C15_attached_live : forall t ops c w o,
-  In (c, w, o) (attached (run true true t ops)) ->
-  In c (heap (run true true t ops)) /\ In o (heap (run true true t ops)).
-Proof. exact attached_live. Qed.
+Theorem C15_attached_live : forall t p ops c w o,
+  In (c, w, o) (attached (core (xrun true true true t p ops))) ->
+  In c (heap (core (xrun true true true t p ops))) /\ In o (heap (core (xrun true true true t p ops))).
+Proof. exact x_attached_live. Qed.
 Print Assumptions C15_attached_live.
 
-(* freed at most once, in terms of the allocation history *)
-Theorem C15_heap_nodup_fresh : forall t ops,
-  NoDup (heap (run true true t ops)) /\
-  forall x, In x (heap (run true true t ops)) -> ~ In x (freed (run true true t ops)).
-Proof. exact heap_nodup_fresh. Qed.
+(* every entry of a connector's m_checkpoint_vertices is an allocated vertex of an allocated connector;
+   no vertex sits in two lists or twice in one; every allocated checkpoint vertex is in some list *)
+Theorem C15_checkpoints_owned : forall t p ops c v,
+  In (c, v) (cpv (xrun true true true t p ops)) ->
+  In c (heap (core (xrun true true true t p ops))) /\ In v (vheap (xrun true true true t p ops)).
+Proof. exact x_checkpoints_owned. Qed.
+Print Assumptions C15_checkpoints_owned.
+
+Theorem C15_checkpoint_lists_disjoint : forall t p ops, NoDup (map snd (cpv (xrun true true true t p ops))).
+Proof. exact x_checkpoint_lists_disjoint. Qed.
+Print Assumptions C15_checkpoint_lists_disjoint.
+
+Theorem C15_no_orphan_checkpoint_vertex : forall t p ops v,
+  In v (vheap (xrun true true true t p ops)) -> exists c, In (c, v) (cpv (xrun true true true t p ops)).
+Proof. exact x_no_orphan_vertex. Qed.
+Print Assumptions C15_no_orphan_checkpoint_vertex.
+
+(* freed at most once, in terms of the allocation history: objects and checkpoint vertices *)
+Theorem C15_heap_nodup_fresh : forall t p ops,
+  let X := xrun true true true t p ops in
+  (NoDup (heap (core X)) /\ forall o, In o (heap (core X)) -> ~ In o (freed (core X))) /\
+  (NoDup (vheap X) /\ (forall v, In v (vheap X) -> ~ In v (vfreed X)) /\
+   forall v, In v (vheap X) \/ In v (vfreed X) -> v < vnext X).
+Proof. exact x_heap_nodup_fresh. Qed.
 Print Assumptions C15_heap_nodup_fresh.
 
-(* nothing is leaked once the router is destroyed *)
-Theorem C15_destroy_releases_all : forall t ops,
-  alive (run true true t ops) = false -> heap (run true true t ops) = [].
-Proof. exact destroy_releases_all. Qed.
+(* nothing is leaked once the router is destroyed: no object and no checkpoint vertex *)
+Theorem C15_destroy_releases_all : forall t p ops,
+  alive (core (xrun true true true t p ops)) = false ->
+  heap (core (xrun true true true t p ops)) = [] /\ vheap (xrun true true true t p ops) = [].
+Proof. exact x_destroy_releases_all. Qed.
 Print Assumptions C15_destroy_releases_all.
+
+(* what the correspondence compares per connector: checkpoint vertices in the router's vertex list *)
+Theorem C15_live_checkpoints_is_list_length : forall t p ops c,
+  live_cp (xrun true true true t p ops) c = length (cp_of c (cpv (xrun true true true t p ops))).
+Proof. exact x_live_cp_is_list_length. Qed.
+Print Assumptions C15_live_checkpoints_is_list_length.
+
+(* the core component of the extended run is the core model run on the core ops *)
+Theorem C15_core_of_extended_run : forall fk fl fc t p ops,
+  core (xrun fk fl fc t p ops) = run fk fl t (core_ops ops).
+Proof. exact xrun_core. Qed.
+Print Assumptions C15_core_of_extended_run.
 
 (* ---- the code before the repairs violates both properties (witnesses are legal histories) ---- *)
 Theorem C15_uaf_refuted_before_fix :
@@ -68,6 +107,42 @@ Theorem C15_leak_refuted_before_fix_ex :
                 alive (run true false t ops) = false /\ heap (run true false t ops) <> [].
 Proof. exact leak_refuted_before_fix. Qed.
 Print Assumptions C15_leak_refuted_before_fix_ex.
+
+(* ---- setRoutingCheckpoints without `m_checkpoint_vertices.clear()` (fc = false): the freed vertices stay at
+   the front of the list; the next rerouting dereferences them, the next call / ~ConnRef frees them again ---- *)
+Theorem C15_checkpoint_uaf_refuted_without_clear :
+  xall_legal true true false (xinit true false) cp_uaf_witness = true /\
+  vbad (xrun true true false true false cp_uaf_witness) = [1; 0] /\
+  vheap (xrun true true false true false cp_uaf_witness) = [2].
+Proof. exact cp_uaf_without_clear_witness. Qed.
+Print Assumptions C15_checkpoint_uaf_refuted_without_clear.
+
+Theorem C15_checkpoint_double_free_refuted_without_clear :
+  xall_legal true true false (xinit true false) cp_double_free_witness = true /\
+  vbad (xrun true true false true false cp_double_free_witness) = [0] /\
+  vfreed (xrun true true false true false cp_double_free_witness) = [0; 0].
+Proof. exact cp_double_free_without_clear_witness. Qed.
+Print Assumptions C15_checkpoint_double_free_refuted_without_clear.
+
+Theorem C15_checkpoint_uaf_refuted_without_clear_ex :
+  exists t p ops, xall_legal true true false (xinit t p) ops = true /\ vbad (xrun true true false t p ops) <> [].
+Proof. exact checkpoint_uaf_refuted_without_clear. Qed.
+Print Assumptions C15_checkpoint_uaf_refuted_without_clear_ex.
+
+(* non-vacuity of the checkpoint theorems: the two witness histories are legal for the current code, pass through
+   states with several live checkpoint vertices, and end clean (also after ~Router) *)
+Theorem C15_checkpoints_nonvacuous :
+  xall_legal true true true (xinit true false) cp_uaf_witness = true /\
+  (let X := xrun true true true true false (firstn 4 cp_uaf_witness) in
+   vheap X = [0; 1] /\ cpv X = [(10, 0); (10, 1)] /\ live_cp X 10 = 2) /\
+  (let X := xrun true true true true false cp_uaf_witness in
+   vbad X = [] /\ vheap X = [2] /\ cpv X = [(10, 2)] /\ vfreed X = [1; 0] /\ live_cp X 10 = 1) /\
+  (let X := xrun true true true true false (cp_uaf_witness ++ [XCore ODestroy]) in
+   alive (core X) = false /\ vbad X = [] /\ vheap X = [] /\ heap (core X) = []) /\
+  (let X := xrun true true true true false cp_double_free_witness in
+   vbad X = [] /\ vheap X = [] /\ vfreed X = [0] /\ heap (core X) = []).
+Proof. exact cp_witnesses_current_code. Qed.
+Print Assumptions C15_checkpoints_nonvacuous.
 
 (* ---- non-vacuity: a legal 14-op history with a move of an obstacle that has an attached connector, a
    delete inside a pending transaction (of an obstacle a queued connector end refers to) and a destroy
